@@ -72,16 +72,24 @@ def discharge(engine: Engine, reports, schedule=None, both=False, workers=16):
             o.result = res
             o.ok = res.status == "unsat"
             return o
-        res = solver.solve_text(txt, schedule=schedule[:1])
-        if res.status != "unsat":
-            gtxt = vc_text(engine, o, defs="ground", fuel=3)
-            ref = solver.solve_text(gtxt, schedule=(("z3", 4),), want="sat")
-            o.refute = ref
-            rest = schedule[1:2] if ref.status == "sat" else schedule[1:]
-            res2 = solver.solve_text(txt, schedule=rest) if rest else res
-            res2.attempts = res.attempts + [("z3-ground-refute", ref.status, round(ref.time_s, 3))] + res2.attempts
-            res2.time_s += res.time_s + ref.time_s
-            res = res2
+        # ground definitional instances first: fewer axioms, so 'unsat' is a proof and 'sat' is a cheap hint
+        gtxt = vc_text(engine, o, defs="ground", fuel=max(2, o.fuel))
+        ref = solver.solve_text(gtxt, schedule=(("z3", 5),))
+        o.refute = ref
+        if ref.status == "unsat":
+            ref.solver = "z3(ground-defs)"
+            res = ref
+        else:
+            rest = schedule[:2] if ref.status == "sat" else schedule
+            res = solver.solve_text(txt, schedule=rest)
+            if res.status != "unsat" and ref.status != "sat":
+                r3 = solver.solve_text(gtxt, schedule=(("cvc5", 10),))
+                if r3.status == "unsat":
+                    r3.solver = "cvc5(ground-defs)"
+                    r3.attempts = res.attempts + r3.attempts
+                    res = r3
+            res.attempts = [("z3-ground", ref.status, round(ref.time_s, 3))] + res.attempts
+            res.time_s += ref.time_s
         o.result = res
         o.ok = res.status == "unsat"
         return o
